@@ -142,5 +142,183 @@ func extractConnUpdates(t *T) (string, error) {
 		}
 	}
 	def("created_size_is_stored_size", v, "applyMessagesCreated / applyMessageUpdated: `LiteralSize: literalSize` with `_, literalSize, _ := rfc822.SetHeaderValueNoMemCopy(...)`")
+	// the four mailbox updates refuse the recovery mailbox before doing anything else: the FIRST statement of the function
+	// is `if <id of the update> == <id of the recovery mailbox> { return fmt.Errorf(...) }`; MailboxCreated / Deleted /
+	// Updated name a mailbox by remote id (compared with ids.GluonInternalRecoveryMailboxRemoteID), MailboxIDChanged by
+	// INTERNAL id (compared with user.recoveryMailboxID)
+	{
+		want := map[string]string{
+			"applyMailboxCreated":   "update.Mailbox.ID==ids.GluonInternalRecoveryMailboxRemoteID",
+			"applyMailboxDeleted":   "update.MailboxID==ids.GluonInternalRecoveryMailboxRemoteID",
+			"applyMailboxUpdated":   "update.MailboxID==ids.GluonInternalRecoveryMailboxRemoteID",
+			"applyMailboxIDChanged": "update.InternalID==user.recoveryMailboxID",
+		}
+		v = "true"
+		var badFns []string
+		for _, fn := range []string{"applyMailboxCreated", "applyMailboxDeleted", "applyMailboxUpdated", "applyMailboxIDChanged"} {
+			ok := false
+			if fd := FuncDecl(f, "user", fn); fd != nil && len(fd.Body.List) > 0 {
+				if is, isIf := fd.Body.List[0].(*ast.IfStmt); isIf && is.Init == nil && is.Else == nil && len(is.Body.List) == 1 {
+					cond := strings.Join(strings.Fields(t.Src("internal/backend/connector_updates.go", is.Cond)), "")
+					if rs, isRet := is.Body.List[0].(*ast.ReturnStmt); isRet && cond == want[fn] && len(rs.Results) == 1 {
+						if c, isCall := rs.Results[0].(*ast.CallExpr); isCall {
+							if sel, isSel := c.Fun.(*ast.SelectorExpr); isSel && sel.Sel.Name == "Errorf" {
+								ok = true
+							}
+						}
+					}
+				}
+			}
+			if !ok {
+				v = "false"
+				badFns = append(badFns, fn)
+			}
+		}
+		def("recovery_mailbox_guards_first", v, fmt.Sprintf("applyMailboxCreated/Deleted/Updated: first statement `if <remote id> == ids.GluonInternalRecoveryMailboxRemoteID { return fmt.Errorf }`; applyMailboxIDChanged: `if update.InternalID == user.recoveryMailboxID { return fmt.Errorf }`; not so in: %v", badFns))
+	}
+	if err := flatChunkFacts(t, &sb); err != nil {
+		return "", err
+	}
 	return sb.String(), nil
+}
+
+// flatChunkFacts: the chunk loops of the SQLite layer that cut a FLAT argument list (k values per row) into chunks:
+// `for _, chunk := range xslices.Chunk(flat, N)` whose statement is built with `xslices.Repeat("(?,..,?)", len(chunk)/K)`.
+// Emitted: db.ChunkLimit and, per such loop, (question marks of the group, K, N). The rows stay whole iff the group size
+// divides N (Proofs/ChunkTuples.v); writeOps.CreateMessages inserts the flags of a MessagesCreated batch this way.
+func flatChunkFacts(t *T, sb *strings.Builder) error {
+	cf, err := t.ParseFile("db/client.go")
+	if err != nil {
+		return err
+	}
+	limit := int64(-1)
+	ast.Inspect(cf, func(n ast.Node) bool {
+		vs, ok := n.(*ast.ValueSpec)
+		if !ok {
+			return true
+		}
+		for i, nm := range vs.Names {
+			if nm.Name == "ChunkLimit" && i < len(vs.Values) {
+				if bl, ok := vs.Values[i].(*ast.BasicLit); ok && bl.Kind == token.INT {
+					fmt.Sscanf(bl.Value, "%d", &limit)
+				}
+			}
+		}
+		return true
+	})
+	if limit <= 0 {
+		sb.WriteString("(* conn_chunk_limit : const ChunkLimit = <integer literal> not found in db/client.go *)\n")
+		return nil
+	}
+	intLit := func(e ast.Expr) (int64, bool) {
+		bl, ok := e.(*ast.BasicLit)
+		if !ok || bl.Kind != token.INT {
+			return 0, false
+		}
+		var v int64
+		_, err := fmt.Sscanf(bl.Value, "%d", &v)
+		return v, err == nil
+	}
+	isChunkLimit := func(e ast.Expr) bool {
+		sel, ok := e.(*ast.SelectorExpr)
+		return ok && sel.Sel.Name == "ChunkLimit" && isIdentNamed(sel.X, "db")
+	}
+	chunkCall := func(e ast.Expr) (int64, bool) { // xslices.Chunk(X, N): the value of N
+		c, ok := e.(*ast.CallExpr)
+		if !ok || len(c.Args) != 2 {
+			return 0, false
+		}
+		sel, ok := c.Fun.(*ast.SelectorExpr)
+		if !ok || sel.Sel.Name != "Chunk" || !isIdentNamed(sel.X, "xslices") {
+			return 0, false
+		}
+		if isChunkLimit(c.Args[1]) {
+			return limit, true
+		}
+		if be, ok := c.Args[1].(*ast.BinaryExpr); ok && be.Op == token.QUO && isChunkLimit(be.X) {
+			if d, ok := intLit(be.Y); ok && d > 0 {
+				return limit / d, true
+			}
+		}
+		return -1, true // a chunk loop whose size is not understood
+	}
+	type grp struct {
+		fn      string
+		q, k, n int64
+	}
+	var groups []grp
+	unknown := 0
+	for _, file := range []string{"internal/db_impl/sqlite3/write_ops.go", "internal/db_impl/sqlite3/read_ops.go"} {
+		f, err := t.ParseFile(file)
+		if err != nil {
+			return err
+		}
+		for _, d := range f.Decls {
+			fd, ok := d.(*ast.FuncDecl)
+			if !ok || fd.Body == nil {
+				continue
+			}
+			ast.Inspect(fd.Body, func(n ast.Node) bool {
+				rs, ok := n.(*ast.RangeStmt)
+				if !ok {
+					return true
+				}
+				size, ok := chunkCall(rs.X)
+				if !ok {
+					return true
+				}
+				lv, _ := rs.Value.(*ast.Ident)
+				// the statements of THIS loop (nested chunk loops are visited on their own)
+				var walk func(m ast.Node) bool
+				walk = func(m ast.Node) bool {
+					if inner, ok := m.(*ast.RangeStmt); ok && inner != rs {
+						if _, isChunk := chunkCall(inner.X); isChunk {
+							return false
+						}
+					}
+					c, ok := m.(*ast.CallExpr)
+					if !ok || len(c.Args) != 2 {
+						return true
+					}
+					sel, ok := c.Fun.(*ast.SelectorExpr)
+					if !ok || sel.Sel.Name != "Repeat" || !isIdentNamed(sel.X, "xslices") {
+						return true
+					}
+					lit, ok := c.Args[0].(*ast.BasicLit)
+					if !ok || lit.Kind != token.STRING {
+						return true
+					}
+					be, ok := c.Args[1].(*ast.BinaryExpr)
+					if !ok || be.Op != token.QUO {
+						return true // len(chunk): one group per element, the list is not flat
+					}
+					k, okk := intLit(be.Y)
+					lc, okl := be.X.(*ast.CallExpr)
+					if !okk || !okl || !isIdentNamed(lc.Fun, "len") || len(lc.Args) != 1 || lv == nil || !isIdentNamed(lc.Args[0], lv.Name) {
+						unknown++
+						return true
+					}
+					if size < 0 {
+						unknown++
+						return true
+					}
+					groups = append(groups, grp{fd.Name.Name, int64(strings.Count(lit.Value, "?")), k, size})
+					return true
+				}
+				ast.Inspect(rs.Body, walk)
+				return true
+			})
+		}
+	}
+	fmt.Fprintf(sb, "\nFrom Coq Require Import NArith List.\nImport ListNotations.\n")
+	fmt.Fprintf(sb, "(* db/client.go: const ChunkLimit *)\nDefinition conn_chunk_limit : N := %d.\n", limit)
+	var items, names []string
+	for _, g := range groups {
+		items = append(items, fmt.Sprintf("(%d, %d, %d)", g.q, g.k, g.n))
+		names = append(names, g.fn)
+	}
+	fmt.Fprintf(sb, "(* chunk loops over a FLAT argument list (statement built with xslices.Repeat(\"(?,..)\", len(chunk)/K)) in %v:\n   (question marks per group, K, chunk size); %d such loop(s) not understood *)\n", names, unknown)
+	fmt.Fprintf(sb, "Definition flat_chunk_groups : list (N * N * N) := [%s]%%N.\n", strings.Join(items, "; "))
+	fmt.Fprintf(sb, "Definition flat_chunk_loops_not_understood : N := %d.\n", unknown)
+	return nil
 }
